@@ -215,3 +215,11 @@ var _ = shared.NewCounter
 //@ func (*Interpreter).ProcessSwitchStatement [C07]
 //@   requires i != nil && stmt != nil
 //@   callassert [default-only-after-every-other-case C07] ProcessCaseStatement: arg2 == stmt.Default ==> rangeindex >= rangelen
+
+// ---- C18 (lock discipline only): a request is processed with the interpreter's mutex held ---------------------
+// (the sync.Mutex ghost model is declared in linter/zz_verif_contracts.go)
+//@ func (*Interpreter).ServeHTTP [C18]
+//@   requires i != nil && !i.lock.g_held
+//@   callassert [request-state-built-under-the-lock C18] ProcessInit: i.lock.g_held
+//@   mustcall [lock-taken-before-processing C18] Lock when called("ProcessInit")
+//@   mustcall [lock-released-on-every-path C18] Unlock when called("ProcessInit")
